@@ -125,6 +125,9 @@ func runC09(p *eng.Prog, r *eng.Report, tier string) {
 	}
 	r.Note("bare assertions in scope: %d, explicit panics in scope: %d", nAssert, nPanic)
 	chanRules(c, "C09.4", fns, why)
+	// C09.16 handler callbacks are nil-tested
+	nCb := handlerCallbacksChecked(c, "C09.16")
+	c.r.Floor("C09.16", "callback fields called by handlers", nCb, 5)
 	// C09.15 a value used although the call that produced it may have failed
 	nTol := valueUsedAfterError(c, "C09.15", c.allFns())
 	r.Note("C09.15: %d error-tolerant uses of a (value, error) result examined", nTol)
